@@ -94,6 +94,15 @@ Definition finish_chain (nm : names) (ws : list wbr) (lsrc : list cmd + cond * l
     end
   end.
 
+(* add_custom_private_function(postcommands_after_return=True): a branch body that can `return`
+   is stored as a function of its own (numbered and stored before the branch function) and replaced
+   by the call of that function *)
+Definition isolate (nm : names) (lines : list cmd) (a : alloc) : list cmd * alloc :=
+  if can_return lines then
+    let (k0, a1) := get_count IF_ELSE a in
+    ([call_func nm IF_ELSE k0], add_fn (priv_fn nm IF_ELSE k0, lines) a1)
+  else (lines, a).
+
 Fixpoint compile_stmt (nm : names) (s : stmt) (a : alloc) {struct s} : option (list cmd * alloc) :=
   match s with
   | SCmd c => Some ([c], a)
@@ -173,11 +182,12 @@ with compile_branches (nm : names) (has_else : bool) (b : branches) (a : alloc) 
     | Some (lines, a1) =>
       if is_bnil r && negb has_else then Some ([], Some (c, lines), a1)
       else
-        let (k, a2) := get_count IF_ELSE a1 in
+        let (blines, a1') := isolate nm lines a1 in
+        let (k, a2) := get_count IF_ELSE a1' in
         (* add_custom_private_function stores the branch function right away *)
-        match compile_branches nm has_else r (add_fn (wbr_fn nm (mkW c lines k)) a2) with
+        match compile_branches nm has_else r (add_fn (wbr_fn nm (mkW c blines k)) a2) with
         | None => None
-        | Some (ws, last, a3) => Some (mkW c lines k :: ws, last, a3)
+        | Some (ws, last, a3) => Some (mkW c blines k :: ws, last, a3)
         end
     end
   end.
